@@ -162,6 +162,7 @@ public:
 
 	struct SortState {
 		std::set<uint32_t> visitedIndices;
+		std::set<uint32_t> pendingIndices;
 		std::vector<uint32_t> newIndices;
 		uint32_t newIndex = 0;
 		std::vector<uint32_t> rootShapeOrder;
